@@ -621,6 +621,7 @@ fn parts(ctx: &Ctx) -> Vec<PartSpec> {
         v.push(PartSpec::new("e1-2recorders-pb2", json!({"e1": 2, "recorders": 2})).cpus("0").budget(150.0));
         v.push(PartSpec::new("e1-2recorders-handover63-pb2", json!({"e1": 2, "recorders": 2, "prefill": 63})).cpus("0").budget(150.0));
         v.push(PartSpec::new("e1-1recorder-2drainers-pb2", json!({"e1": 2, "recorders": 1, "prefill": 2, "upkeeper": true})).cpus("0").budget(150.0));
+        v.push(PartSpec::new("e1-1recorder-impatient-waits-pb1", json!({"e1": 1, "recorders": 1, "impatient": 24})).cpus("0").budget(150.0));
         v.push(PartSpec::new("e1-scalars-2recorders-pb2", json!({"scalars": 2})).cpus("0").budget(150.0));
         v.push(PartSpec::new("e1-1recorder-2drainers-buckets-pb2", json!({"e1": 2, "recorders": 1, "prefill": 2, "upkeeper": true, "buckets": true})).cpus("0").budget(150.0));
     } else {
@@ -633,6 +634,7 @@ fn parts(ctx: &Ctx) -> Vec<PartSpec> {
         v.push(PartSpec::new("e1-2recorders-pb3", json!({"e1": 3, "recorders": 2})).cpus("1").budget(2400.0));
         v.push(PartSpec::new("e1-2recorders-handover63-pb3", json!({"e1": 3, "recorders": 2, "prefill": 63})).cpus("2").budget(2400.0));
         v.push(PartSpec::new("e1-1recorder-handover62-pb3", json!({"e1": 3, "recorders": 1, "prefill": 62})).cpus("3").budget(2400.0));
+        v.push(PartSpec::new("e1-2recorders-impatient-waits-pb2", json!({"e1": 2, "recorders": 2, "impatient": 24})).cpus("7").budget(2400.0));
         v.push(PartSpec::new("e1-scalars-2recorders-pb4", json!({"scalars": 4})).cpus("6").budget(2400.0));
         v.push(PartSpec::new("e1-1recorder-2drainers-buckets-pb3", json!({"e1": 3, "recorders": 1, "prefill": 2, "upkeeper": true, "buckets": true})).cpus("4").budget(2400.0));
         v.push(PartSpec::new("e1-2recorders-buckets-pb3", json!({"e1": 3, "recorders": 2, "buckets": true})).cpus("5").budget(2400.0));
@@ -643,6 +645,10 @@ fn parts(ctx: &Ctx) -> Vec<PartSpec> {
 
 fn run(ctx: &Ctx, spec: &PartSpec) -> PartResult {
     let mut res = PartResult::new(&spec.name, "");
+    if let Some(k) = spec.arg["impatient"].as_u64() {
+        // impatient waits (see vsched::IMPATIENT): a draining thread's wait for in-flight writers retries 24 times at once
+        vsched::IMPATIENT.store(k as u32, std::sync::atomic::Ordering::Relaxed);
+    }
     if spec.arg["long"].as_bool() == Some(true) {
         e3_long(&mut res);
     } else if let Some(pb) = spec.arg["scalars"].as_u64() {
